@@ -118,6 +118,13 @@ fn run(args: &[String]) -> ! {
     let mut rep = Report::new(&id, tier, seed);
     rep.extra.push(("oracle_selfcheck".into(), Json::obj().with("best_of_n_agreement_hands", Json::U(n)).with("p7_covering_pairs", Json::U(p7)).with("p6_covering_pairs", Json::U(p6))));
     (prop.run)(&ctx, &mut rep);
+    if prop.trace_rerun && !monitor::trace_logging() && ctx.shard.is_none() && !ctx.probe && !ctx.lean {
+        // second configuration: a host that logs at Trace level (the overflow-checked profile is always in it)
+        monitor::set_trace_logging(true);
+        (prop.run)(&ctx, &mut rep);
+        monitor::set_trace_logging(false);
+        rep.rule.push_str(" Every case is explored in two logging configurations (no logger / a Trace-level logger installed); the counts include both.");
+    }
 
     if let Some(out) = child_out {
         evidence::absorb_unreproduced(&mut rep);
